@@ -1,4 +1,402 @@
-def run(ctx, spec_id, refs_of):
-    return {}
+"""C14 real-build oracle: small generated Bob projects, built by the real Bob in child processes
+(gen/c14_bobrun.py), every audit trail compared with the ids of the step, the workspace and the dependency graph.
+
+Self contained on purpose (a richer project generator belongs to C02)."""
+import json
+import os
+import subprocess
+import sys
+import time
+
+HERE = os.path.dirname(os.path.abspath(__file__))
+RUNNER = os.path.join(HERE, "c14_bobrun.py")
+JOBS = True         # parallel jobs inside one helper process (see c14_bobrun.py)
+TRAILS = []          # trails of real builds for the model correspondence (iii)
+
+
+# ------------------------------------------------------------------ project generator
+
+def yaml_str(s):
+    return json.dumps(s)
+
+
+def recipe_yaml(rc):
+    out = []
+    if rc.get("root"):
+        out.append("root: True")
+    if rc.get("meta"):
+        out.append("metaEnvironment:")
+        for k, v in rc["meta"].items():
+            out.append("    %s: %s" % (k, yaml_str(v)))
+    if rc.get("deps") or rc.get("tooldeps") or rc.get("sandboxdep"):
+        out.append("depends:")
+        for d in rc.get("deps", []):
+            out.append("    - %s" % d)
+        for d in rc.get("tooldeps", []):
+            out.append("    - name: %s\n      use: [tools]" % d)
+        if rc.get("sandboxdep"):
+            out.append("    - name: %s\n      use: [sandbox]\n      forward: True" % rc["sandboxdep"])
+    if rc.get("import"):
+        out.append("checkoutSCM:\n    scm: import\n    url: %s" % yaml_str(rc["import"]))
+        if rc.get("importdir"):
+            out.append("    dir: %s" % yaml_str(rc["importdir"]))
+    if rc.get("checkoutScript"):
+        out.append("checkoutDeterministic: True")
+        out.append("checkoutScript: |\n" + indent(rc["checkoutScript"]))
+    if rc.get("buildTools"):
+        out.append("buildTools: [%s]" % ", ".join(rc["buildTools"]))
+    if rc.get("packageTools"):
+        out.append("packageTools: [%s]" % ", ".join(rc["packageTools"]))
+    if rc.get("buildScript") is not None:
+        out.append("buildScript: |\n" + indent(rc["buildScript"]))
+    if rc.get("multi"):
+        out.append("multiPackage:")
+        for name, ps in rc["multi"].items():
+            out.append("    %s:\n        packageScript: |\n%s" % (name, indent(ps, 12)))
+    else:
+        out.append("packageScript: |\n" + indent(rc["packageScript"]))
+    if rc.get("provideTools"):
+        out.append("provideTools:")
+        for t in rc["provideTools"]:
+            out.append("    %s: \".\"" % t)
+    if rc.get("provideSandbox"):
+        out.append("provideSandbox:\n    paths: [\"/usr/local/bin\", \"/usr/bin\", \"/bin\", \"/usr/sbin\", \"/sbin\"]\n    mount:\n"
+                   "        - /bin\n        - /etc\n        - /lib\n        - /usr\n        - /var\n        - [\"/run\", \"/run\", [nofail]]\n"
+                   "        - [\"/lib32\", \"/lib32\", [nofail]]\n        - [\"/lib64\", \"/lib64\", [nofail]]\n        - [\"/opt\", \"/opt\", [nofail]]\n"
+                   "        - [\"/venv\", \"/venv\", [nofail]]\n        - [\"/root\", \"/root\", [nofail]]")
+    return "\n".join(out) + "\n"
+
+
+def indent(s, n=4):
+    return "\n".join(" " * n + l for l in s.rstrip("\n").split("\n")) + "\n"
+
+
+BUILD = """\
+if [ -d "$1" ]; then cat "$1"/*.txt > src.txt 2>/dev/null || true; fi
+: > deps.txt
+for i in "${@:2}"; do cat "$i"/result.txt >> deps.txt; done
+%s
+echo %s > own.txt
+"""
+
+PACKAGE = """\
+cat "$1"/*.txt > result.txt
+%s
+"""
+
+
+def gen_project(r, idx, sandbox=False):
+    n = r.randrange(2, 6)
+    names = ["r%d" % i for i in range(n)]
+    recipes = {}
+    files = {"config.yaml": 'bobMinimumVersion: "0.25"\n'}
+    tools = {}       # recipe -> tool name
+    for i in reversed(range(n)):
+        name = names[i]
+        rc = {"name": name, "root": i == 0 or (i == 1 and r.random() < 0.2)}
+        lower = names[i + 1:]
+        if lower:
+            k = r.randrange(0, min(3, len(lower)) + 1)
+            if i == 0 and k == 0:
+                k = 1
+            rc["deps"] = sorted(r.sample(lower, k))
+            cand = [x for x in lower if x in tools and x not in rc["deps"]]
+            if cand and r.random() < 0.7:
+                t = r.choice(cand)
+                rc["tooldeps"] = [t]
+                rc[r.choice(["buildTools", "packageTools"])] = [tools[t]]
+        k = r.random()
+        if k < 0.5:
+            rc["import"] = "src/" + name
+            if r.random() < 0.3:
+                rc["importdir"] = "sub"
+            files["src/%s/main.txt" % name] = "source of %s #%d\n" % (name, r.randrange(1000))
+            if r.random() < 0.5:
+                files["src/%s/inc/other.txt" % name] = "other\n"
+        elif k < 0.75:
+            rc["checkoutScript"] = "echo gen-%s-%d > gen.txt" % (name, r.randrange(1000))
+        if r.random() < 0.5:
+            rc["meta"] = {"LICENSE": r.choice(["MIT", "GPL-2.0", ""]), "VER_%s" % name.upper(): str(r.randrange(10))}
+        tooluse = ""
+        if rc.get("buildTools"):
+            tooluse = 'cat "${BOB_TOOL_PATHS[%s]}"/result.txt > tool.txt' % rc["buildTools"][0]
+        srcglob = rc.get("importdir")
+        build = BUILD % (tooluse, "%s-%d" % (name, r.randrange(1000)))
+        if srcglob:
+            build = build.replace('cat "$1"/*.txt', 'cat "$1"/%s/*.txt' % srcglob)
+        rc["buildScript"] = build
+        ptool = ""
+        if rc.get("packageTools"):
+            ptool = 'cat "${BOB_TOOL_PATHS[%s]}"/result.txt >> result.txt' % rc["packageTools"][0]
+        rc["packageScript"] = PACKAGE % ptool
+        if i > 0 and r.random() < 0.35:
+            tools[name] = "t" + name
+            rc["provideTools"] = [tools[name]]
+        if i == n - 1 and n >= 3 and r.random() < 0.25 and name not in tools:
+            rc["multi"] = {"a": PACKAGE % "echo a >> result.txt", "b": PACKAGE % "echo b >> result.txt"}
+        recipes[name] = rc
+    # multiPackage renames the packages: fix the references
+    for rc in recipes.values():
+        if rc.get("multi"):
+            for other in recipes.values():
+                if rc["name"] in other.get("deps", []):
+                    other["deps"] = sorted(set(x for x in other["deps"] if x != rc["name"]) |
+                                           {rc["name"] + "-" + r.choice(["a", "b"])} | ({rc["name"] + "-b"} if r.random() < 0.3 else set()))
+    if sandbox:
+        recipes["sbx"] = {"name": "sbx", "packageScript": "echo canary > canary.txt\n", "provideSandbox": True, "buildScript": None}
+        for rc in recipes.values():
+            if rc.get("root"):
+                rc["sandboxdep"] = "sbx"
+    for name, rc in recipes.items():
+        files["recipes/%s.yaml" % name] = recipe_yaml(rc)
+    roots = [rc["name"] for rc in recipes.values() if rc.get("root")]
+    return {"idx": idx, "files": files, "recipes": recipes, "roots": roots, "sandbox": sandbox}
+
+
+def gen_plan(r, proj):
+    """invocations: fresh build, then 1-3 incremental ones"""
+    base = list(proj["roots"]) + (["--sandbox"] if proj["sandbox"] else [])
+    if r.random() < 0.3 and JOBS:
+        base += ["-j", "3"]
+    if r.random() < 0.2 and not proj["sandbox"]:
+        # upload everything into a file archive, wipe the workspaces, build again from the downloaded dependencies
+        files = dict(proj["files"])
+        files["default.yaml"] = 'archive:\n    backend: file\n    path: "@ARCHIVE@"\n    flags: [download, upload]\n'
+        return [{"writes": files, "args": base + ["--upload", "--download", "no"], "kind": "fresh", "sandbox": False},
+                {"writes": {}, "remove": ["dev", ".bob-state.pickle"], "args": base + ["--download", r.choice(["deps", "yes"])],
+                 "kind": "redownload", "sandbox": False}]
+    plan = [{"writes": dict(proj["files"]), "args": base, "kind": "fresh", "sandbox": proj["sandbox"]}]
+    recipes = proj["recipes"]
+    noaudit_seen = False
+    for step in range(r.randrange(1, 3)):
+        k = r.random()
+        writes, kind, args = {}, "rerun", list(base)
+        names = [n for n in recipes if n != "sbx"]
+        if 0.3 <= k < 0.75 and not [n for n in names if recipes[n].get("import")]:
+            k = 0.1
+        if k < 0.3:
+            n = r.choice(names)
+            recipes[n]["buildScript"] += "echo edit%d >> own.txt\n" % step
+            writes["recipes/%s.yaml" % n] = recipe_yaml(recipes[n])
+            kind = "script:" + n
+        elif k < 0.55:
+            imp = [n for n in names if recipes[n].get("import")]
+            if imp:
+                n = r.choice(imp)
+                writes["src/%s/main.txt" % n] = "changed %d in step %d\n" % (r.randrange(1000), step)
+                kind = "source:" + n
+        elif k < 0.75:
+            imp = [n for n in names if recipes[n].get("import")]
+            if imp:
+                n = r.choice(imp)
+                writes["src/%s/unused%d.dat" % (n, step)] = "not used %d\n" % r.randrange(1000)
+                kind = "neutral:" + n
+        elif k < 0.85:
+            n = r.choice(names)
+            recipes[n].setdefault("meta", {})["ADDED"] = "v%d" % step
+            writes["recipes/%s.yaml" % n] = recipe_yaml(recipes[n])
+            kind = "meta:" + n
+        if r.random() < 0.22:
+            args = args + ["--no-audit"]
+            kind += "+noaudit"
+            noaudit_seen = True
+        plan.append({"writes": writes, "args": args, "kind": kind, "sandbox": proj["sandbox"], "after_noaudit": noaudit_seen})
+    return plan
+
+
+# ------------------------------------------------------------------ checking one report
+
+def closure_of(rec, by_id, refs_of):
+    seen, todo = set(), list(refs_of(rec))
+    while todo:
+        i = todo.pop()
+        if i in seen:
+            continue
+        seen.add(i)
+        if i in by_id:
+            todo.extend(refs_of(by_id[i]))
+    return seen
+
+
+def check_invocation(inv, plan_inv, bobver, strict_presence, spec_id, refs_of):
+    """yields (signature, what, step description)"""
+    if inv["rc"] != "ok":
+        yield ("build-failed", "bob dev failed: %s" % inv["rc"], None)
+        return
+    by_ws = {}
+    for s in inv["steps"]:
+        by_ws.setdefault(s["ws"], []).append(s)
+    for ws, group in sorted(by_ws.items()):
+        s = group[0]
+        if not s["exists"]:
+            continue
+        if s.get("audit_err"):
+            yield ("audit-unreadable", "%s: %s" % (s["audit_path"], s["audit_err"]), s)
+            continue
+        tree = s["audit"]
+        if tree is None:
+            if strict_presence:
+                yield ("audit-missing", "no audit trail next to %s although every invocation ran with audit" % ws, s)
+            continue
+        art = tree["artifact"]
+        by_id = {x.get("artifact-id"): x for x in tree["references"]}
+        if s["schema"] != "ok":
+            yield ("schema", "trail of %s violates Audit.SCHEMA: %s" % (ws, s["schema"]), s)
+            continue
+        bad = [x.get("artifact-id") for x in [art] + tree["references"] if spec_id(x) != x.get("artifact-id")]
+        if bad:
+            yield ("artifact-id-not-digest-of-content", "records %s of %s: artifact-id is not the digest of the content" % (bad, ws), s)
+        missing = closure_of(art, by_id, refs_of) - set(by_id)
+        if missing:
+            yield ("trail-not-closed", "trail of %s misses records %s" % (ws, sorted(missing)), s)
+            continue
+        if art["variant-id"] != s["vid"]:
+            yield ("variant-id", "trail of %s records variant-id %s, the step has %s" % (ws, art["variant-id"], s["vid"]), s)
+        if art["result-hash"] != s["hash"]:
+            yield ("result-hash", "trail of %s records result-hash %s, the workspace hashes to %s" % (ws, art["result-hash"], s["hash"]), s)
+        if s.get("regenerated") and s["bid"] is not None and art["build-id"] != s["bid"]:
+            yield ("build-id", "trail of %s records build-id %s, recomputed %s" % (ws, art["build-id"], s["bid"]), s)
+        meta = art["meta"]
+        want = {"bob": bobver, "recipe": s["recipe"], "step": s["label"], "language": s["lang"]}
+        got = {k: meta.get(k) for k in want}
+        pkgs = sorted(set(x for g in group for x in g["pkgs"]))
+        if got != want or meta.get("package") not in pkgs:
+            yield ("meta", "trail of %s records meta %s, expected %s and package in %s" % (ws, meta, want, pkgs), s)
+        # metaEnvironment is not part of the variant-id: a change alone re-runs nothing, the trail keeps the
+        # values of the run that produced the content (compared for regenerated trails only)
+        if s.get("regenerated") and art.get("metaEnv", {}) != s["metaEnv"] and not any(art.get("metaEnv", {}) == g["metaEnv"] for g in group):
+            yield ("metaEnv", "trail of %s records metaEnv %s, the package has %s" % (ws, art.get("metaEnv"), s["metaEnv"]), s)
+        if s["label"] == "src" and s.get("regenerated"):
+            exp = [x for x in s["scms"]]
+            if art["scms"] != exp:
+                yield ("scm-state", "trail of %s records scms %s, the checkout is %s" % (ws, art["scms"], exp), s)
+        # direct dependencies, resolved to variant ids through the trail's own records
+        deps = art["dependencies"]
+
+        def vid_of(i):
+            return by_id[i]["variant-id"]
+        got_args = [vid_of(i) for i in deps.get("args", [])]
+        got_tools = {n: vid_of(i) for n, i in deps.get("tools", {}).items()}
+        got_sb = vid_of(deps["sandbox"]) if "sandbox" in deps else None
+        if (got_args, got_tools, got_sb) != (s["args"], s["tools"], s["sandbox"]):
+            yield ("direct-dependencies", "trail of %s records args/tools/sandbox %s, the step uses %s" %
+                   (ws, (got_args, got_tools, got_sb), (s["args"], s["tools"], s["sandbox"])), s)
+        got_trans = sorted({(x["variant-id"], x["meta"].get("step")) for x in tree["references"]})
+        if got_trans != sorted(tuple(x) for x in s["trans"]):
+            yield ("references-not-transitive-dependencies", "trail of %s has records for %s, the transitive dependencies are %s" %
+                   (ws, got_trans, s["trans"]), s)
+
+
+def strip(s):
+    if s is None:
+        return None
+    return {k: v for k, v in s.items() if k not in ("audit",)}
+
+
+# ------------------------------------------------------------------ running
+
+def launch(ctx, idx, sandbox, tmp):
+    r = ctx.subrng("proj", idx)
+    proj = gen_project(r, idx, sandbox)
+    plan = gen_plan(r, proj)
+    d = os.path.join(tmp, "p%d" % idx)
+    os.makedirs(d, exist_ok=True)
+    pf, rf = os.path.join(d, "plan.json"), os.path.join(d, "report.json")
+    os.makedirs(os.path.join(d, "proj"), exist_ok=True)
+    for inv in plan:
+        for k in inv.get("writes", {}):
+            inv["writes"][k] = inv["writes"][k].replace("@ARCHIVE@", os.path.join(d, "archive"))
+    json.dump(plan, open(pf, "w"))
+    env = dict(os.environ)
+    env["PYTHONDONTWRITEBYTECODE"] = "1"
+    p = subprocess.Popen([sys.executable, RUNNER, ctx.repo, os.path.join(d, "proj"), pf, rf],
+                         stdout=subprocess.DEVNULL, stderr=subprocess.PIPE, env=env, cwd=os.path.join(d, "proj"))
+    return {"idx": idx, "p": p, "plan": plan, "report": rf, "t0": time.time(), "sandbox": sandbox, "dir": d}
+
+
+def evaluate(ctx, job, spec_id, refs_of, stats):
+    try:
+        rep = json.load(open(job["report"]))
+    except Exception:
+        err = (job["p"].stderr.read() or b"").decode("utf8", "replace")[-1500:]
+        if job["sandbox"]:
+            ctx.skip("sandbox builds unavailable")
+            return
+        ctx.skip("a build helper did not finish")
+        stats["helper_failed"] = stats.get("helper_failed", 0) + 1
+        stats.setdefault("helper_errors", []).append(err[-300:])
+        return
+    strict = True
+    for k, (inv, pinv) in enumerate(zip(rep["invocations"], job["plan"])):
+        if "--no-audit" in pinv["args"]:
+            strict = False
+        found = list(check_invocation(inv, pinv, rep["bob"], strict, spec_id, refs_of))
+        nsteps = 0
+        for s in inv["steps"]:
+            if s["exists"]:
+                nsteps += 1
+                ctx.case(("build", job["idx"], k, s["ws"], s["vid"], s["hash"]),
+                         sample={"project": job["idx"], "invocation": pinv["kind"], "step": s["pkg"] + ":" + s["label"],
+                                 "references": len(s["audit"]["references"]) if s.get("audit") else None} if s["trans"] else None,
+                         nontrivial=bool(s["trans"]))
+                ctx.count("build_step", s["label"] + (":audit" if s.get("audit") else ":noaudit"))
+                if s.get("audit") and len(TRAILS) < 400 and s.get("regenerated"):
+                    TRAILS.append({"path": s["audit_path"], "tree": s["audit"], "rbi": s.get("rbi")})
+        ctx.count("invocation", pinv["kind"].split(":")[0])
+        stats["steps"] = stats.get("steps", 0) + nsteps
+        for sig, what, s in found:
+            if sig == "build-failed":
+                if job["sandbox"]:
+                    ctx.skip("sandbox builds unavailable")
+                else:
+                    # a generated project that does not build is a generator problem, not a verdict
+                    ctx.skip("a generated project failed to build")
+                    stats.setdefault("build_errors", []).append(what[-300:])
+                return
+            case = {"kind": "build", "idx": job["idx"], "sandbox": job["sandbox"], "upto": k, "seed": ctx.seed,
+                    "step": strip(s), "plan_kinds": [p["kind"] for p in job["plan"]]}
+            ctx.violation("project %d, invocation %d (%s): %s" % (job["idx"], k, pinv["kind"], what), case, sig)
+
+
+def run(ctx, spec_id, refs_of, indices=None, reserve=75):
+    n = ctx.scale(24, 500)
+    tmp = os.path.join(ctx.tmp, "builds")
+    os.makedirs(tmp, exist_ok=True)
+    par = 8
+    todo = list(indices if indices is not None else range(n))
+    running, stats = [], {"projects": 0}
+    sandbox_every = 6
+    t_limit = ctx.scale(90, 600)
+    while todo or running:
+        while todo and len(running) < par and ctx.time_left() > reserve + 20:
+            idx = todo.pop(0)
+            running.append(launch(ctx, idx, sandbox=(idx % sandbox_every == sandbox_every - 1), tmp=tmp))
+        if todo and not running:
+            ctx.skip("real-build stream cut: %d projects not run (time)" % len(todo))
+            break
+        still = []
+        for job in running:
+            if job["p"].poll() is None:
+                if time.time() - job["t0"] > t_limit or ctx.time_left() < reserve - 20:
+                    job["p"].kill()
+                    job["p"].wait()
+                    ctx.skip("a build helper was stopped (time)")
+                else:
+                    still.append(job)
+                continue
+            stats["projects"] += 1
+            evaluate(ctx, job, spec_id, refs_of, stats)
+        running = still
+        if running:
+            time.sleep(0.05)
+        if not running and todo and ctx.time_left() <= reserve + 20:
+            ctx.skip("real-build stream cut: %d projects not run (time)" % len(todo))
+            break
+    return stats
+
+
 def replay(ctx, case, spec_id, refs_of):
-    pass
+    """re-run the recorded project (same seed stream) and re-check it"""
+    import random
+    ctx.seed = case.get("seed", ctx.seed)
+    run(ctx, spec_id, refs_of, indices=[case["idx"]], reserve=0)
